@@ -2,4 +2,5 @@
 import MenelausVerif.Base.Drift
 import MenelausVerif.Base.Arith
 import MenelausVerif.Model.Election
+import MenelausVerif.Model.PageHinkley
 import MenelausVerif.Props.C13
